@@ -17,12 +17,13 @@ Flow (DESIGN.md section 5, C03; spec/RTransform.tla + spec/ExprX.tla):
     InverseRTransform(tf), trim_inf on/off, array / NumPy scalar / Python float input, explicit b
     for the b-scaled classes, at the lattice points and at VERIF_SEED-drawn float points and
     float parameters (non-integer k), end points with the trim rule, monotonicity.  Expected
-    values: the spec trees evaluated at the exact binary inputs (vf/expr_eval.py, 50 digits),
-    and independently the rationals TLC printed.
+    values: the spec trees evaluated at the exact binary inputs (vf/expr_eval.py, 50 digits);
+    step 2(a) ties that evaluator to the rationals TLC printed.
 
-Tolerance (vf/rtx.py): |obs - f| <= max(1e-9 |f|, 1e4 eps S), S = sum |in_i df/din_i| from the
-spec tree.  Calibration on the pinned tree (thorough tier, seeds 0-2; CALIB=1 prints it): see
-CALIBRATION below.
+Tolerance (vf/rtx.py): |obs - f| <= max(1e-9 |f|, 1e3 B), B = running-error bound of the spec
+tree (+ the error of the intermediate value for the methods computed through the other side of
+the map, + the running error of the equivalent inverse-function-theorem tree a_n / b_n).
+Calibration on the pinned tree: see CALIBRATION below (CALIB=1 prints the figures of a run).
 """
 from __future__ import annotations
 
@@ -41,12 +42,14 @@ from ..rtx import EPS, FWD, INV, LIB, ev, mp
 PROP = "C03"
 
 CALIBRATION = """
-thorough tier, VERIF_SEED 0..2 (pinned tree with the 14 fixes): 2.9e6 float observations;
-largest err/(1e-9 |f|) of an accepted observation that passed the relative test: 2.4e-4;
-observations that needed the conditioning term: 0.02 % (inverse maps / inverse derivatives at
-points where the forward map is flat: Knowles / Handy / HandyMod with exponent >= 4 near x = -1),
-largest err/(eps S) among them: 1.9 (acceptance at 1e4).  Smallest relative error produced by
-the mutants of selftest(): 2.4e-3 (7 orders of magnitude above the accepted errors).
+thorough tier, VERIF_SEED=0 (pinned tree with the 14 fixes): 5.35e6 float observations, all
+accepted (apart from the Knowles end-point finding).  99.2 % have a relative error below 1e-12
+(3 orders of magnitude below the 1e-9 test, accepted without looking at B); for the other
+4.2e4 (inverse maps / inverse derivatives where the forward map is flat, 1 - exp(-u) for tiny u,
+values at zeros of a derivative) B was computed: largest err / max(1e-9 |f|, 1e3 B) = 2e-4
+(quick tiers, seeds 0-2: 2.0e-4, 2.0e-4, 1.8e-4), i.e. 3.7 orders of magnitude of slack.
+The mutants of selftest() produce relative errors >= 2.4e-3 (7 orders of magnitude above the
+accepted errors); all 16 are reported.
 """
 
 _G = {}  # emission etc. for forked workers
@@ -88,6 +91,7 @@ class Out:
         self.identities = 0     # identities re-checked with unbounded integers
         self.cond_used = 0
         self.max_ratio = 0.0
+        self.max_ratio_budget = 0.0
         self.worst = None
 
 
@@ -193,6 +197,7 @@ def _cmp(out: Out, inst, key_base, what, obs, tree, tenv, var, case, route=None)
             out.worst = {"what": what, "observed": float(obs), "expected": fexp, "err": err, "tol": tol}
         if err > 1e-3 * rtx.RTOL * abs(fexp):
             out.cond_used += 1
+            out.max_ratio_budget = max(out.max_ratio_budget, ratio)
         return
     kind = "nan" if isinstance(obs, float) and math.isnan(obs) else "value"
     c = dict(case)
@@ -468,7 +473,7 @@ def check(rep: Report, tier: str, modelled) -> None:
     res, em, vals, ends = modelled
     _G.update(em=em, vals=vals, ends=ends, tier=tier)
     jobs = [(i.idx, p) for i in em.instances for p in range(1, len(i.params) + 1)]
-    nrand = 8 if tier == "quick" else 250
+    nrand = 8 if tier == "quick" else 150
     npts = 5 if tier == "quick" else 12
     rjobs = []
     for i in em.instances:
@@ -515,6 +520,7 @@ def check(rep: Report, tier: str, modelled) -> None:
     rep.set("float_observations", n)
     rep.set("conditioning_term_computed", sum(o.cond_used for o in outs))
     rep.set("max_err_over_tolerance_accepted", max([o.max_ratio for o in outs] + [0.0]))
+    rep.set("max_err_over_tolerance_where_budget_computed", max([o.max_ratio_budget for o in outs] + [0.0]))
     worst = sorted((o for o in outs if o.worst), key=lambda o: -o.max_ratio)[:3]
     rep.set("closest_accepted_observations", [dict(o.worst, ratio=o.max_ratio) for o in worst])
     rep.set("traces_validated_against_impl", n)
@@ -536,7 +542,7 @@ def run(tier: str) -> int:
     rep.assume("Expr!D implements the textbook differentiation rules; its output is validated in TLC by the "
                "inverse-function identities of order 1-3 between D^n(F) and D^n(G)")
     if os.environ.get("CALIB"):
-        print("calibration:", {k: rep.cov.get(k) for k in ("float_observations", "conditioning_term_computed", "max_err_over_tolerance_accepted")})
+        print("calibration:", {k: rep.cov.get(k) for k in ("float_observations", "conditioning_term_computed", "max_err_over_tolerance_accepted", "max_err_over_tolerance_where_budget_computed")})
     return rep.finish()
 
 
